@@ -1,76 +1,91 @@
 package main
 
 import (
-	"archive/tar"
-	"bytes"
 	"fmt"
 	"os"
-	"path/filepath"
-	"strconv"
-	"time"
 
+	"github.com/spf13/afero"
 	"verif/harness/sut"
 )
 
 func main() {
-	pad, _ := strconv.Atoi(os.Args[1])
-	rs, _ := strconv.Atoi(os.Args[2])
 	dir, _ := os.MkdirTemp("", "dbg")
 	defer os.RemoveAll(dir)
-	buf := &bytes.Buffer{}
-	tw := tar.NewWriter(buf)
-	mt := time.Unix(1600000000, 0)
-	w := func(h *tar.Header, d []byte) {
-		h.Format = tar.FormatPAX
-		h.ModTime = mt
-		tw.WriteHeader(h)
-		tw.Write(d)
-	}
-	w(&tar.Header{Typeflag: tar.TypeDir, Name: "./", Mode: 0o755}, nil)
-	w(&tar.Header{Typeflag: tar.TypeReg, Name: "./f", Mode: 0o644, Size: 5}, []byte("hello"))
-	w(&tar.Header{Typeflag: tar.TypeReg, Name: "./g", Mode: 0o644, Size: 5}, []byte("world"))
-	tw.Close()
-	buf.Write(make([]byte, 512*pad))
-	drive := filepath.Join(dir, "drive.tar")
-	os.WriteFile(drive, buf.Bytes(), 0o644)
-	fmt.Println("foreign blocks:", buf.Len()/512)
 	ks := sut.NewKeySet("/verif/.cache/keys")
-	cfg := sut.Config{RecordSize: rs}
-	inst, err := sut.OpenNoInit(dir, "", cfg, ks, nil)
+	cfg := sut.Config{RecordSize: 20}
+	inst, err := sut.Open(dir, "", cfg, ks, nil)
 	if err != nil {
 		panic(err)
 	}
-	root, ierr := inst.FS.Initialize("/", os.ModePerm)
-	fmt.Println("init", root, ierr)
-	for _, a := range os.Args[3:] {
-		switch a {
-		case "rm":
-			fmt.Println("remove /g:", inst.FS.Remove("/g"))
-		case "mk":
-			fmt.Println("mkdir /n:", inst.FS.Mkdir("/n", 0o755))
-		case "ch":
-			fmt.Println("chmod /f:", inst.FS.Chmod("/f", 0o600))
+	fs := inst.FS
+	show := func(tag string) {
+		v, err := sut.Walk(fs, sut.ViewOpts{ReadContent: true, KeepData: true})
+		fmt.Println("--", tag, err)
+		for _, p := range v.SortedPaths() {
+			fmt.Printf("   %s %s %q\n", p, v[p].Kind, string(v[p].Data))
 		}
-		st, _ := os.Stat(drive)
-		fmt.Println("  tape blocks:", st.Size()/512)
-	}
-	rows, _ := sut.Rows(inst.DB)
-	for _, r := range rows {
-		fmt.Printf("live  %-6q del=%v rec=%d blk=%d lk=%d/%d\n", r.Name, r.Deleted, r.Record, r.Block, r.LKRecord, r.LKBlock)
-	}
-	rb, ierr2, err := sut.Rebuilt(drive, filepath.Join(dir, "rb"), cfg, ks)
-	fmt.Println("rebuild", ierr2, err)
-	if rb != nil {
-		rows, _ = sut.Rows(rb.DB)
-		for _, r := range rows {
-			fmt.Printf("rebld %-6q del=%v rec=%d blk=%d lk=%d/%d\n", r.Name, r.Deleted, r.Record, r.Block, r.LKRecord, r.LKBlock)
+		rb, ierr, err := sut.Rebuilt(inst.Drive, dir+"/rb-"+tag, cfg, ks)
+		if err != nil || ierr != nil {
+			fmt.Println("   rebuild:", err, ierr)
+			return
 		}
-	}
-	sc, err := sut.Scan(drive, cfg, ks, false)
-	fmt.Println("scan err", err)
-	if sc != nil {
-		for _, r := range sc.Recs {
-			fmt.Printf("scan off=%d hb=%d db=%d %q %s\n", r.Off, r.HB, r.DB, r.Name, r.Action)
+		v2, _ := sut.Walk(rb.FS, sut.ViewOpts{ReadContent: true, KeepData: true})
+		for _, d := range sut.DiffViews(v, v2, "rebuilt", false) {
+			fmt.Println("   DIFF running/rebuilt:", d)
 		}
+		rb.Close()
+	}
+	wf := func(p, s string) {
+		f, err := fs.OpenFile(p, os.O_RDWR|os.O_CREATE|os.O_TRUNC, 0o666)
+		if err != nil {
+			fmt.Println("wf", err)
+			return
+		}
+		f.Write([]byte(s))
+		fmt.Println("writefile", p, f.Close())
+	}
+	var h afero.File
+	switch os.Args[1] {
+	case "rename":
+		wf("/f", "abc")
+		h, err = fs.OpenFile("/f", os.O_RDWR|os.O_APPEND, 0)
+		fmt.Println("open", err)
+		fmt.Println("rename", fs.Rename("/f", "/g"))
+		_, err = h.Write([]byte("X"))
+		fmt.Println("write", err)
+		fmt.Println("close", h.Close())
+		show("afterclose")
+		fmt.Println("mkdir", fs.Mkdir("/n", 0o755))
+		show("aftermkdir")
+	case "remove":
+		fmt.Println("mkdir", fs.Mkdir("/d", 0o755))
+		wf("/d/f", "abc")
+		h, err = fs.OpenFile("/d/f", os.O_RDWR|os.O_APPEND, 0)
+		fmt.Println("open", err)
+		fmt.Println("removeall", fs.RemoveAll("/d"))
+		_, err = h.Write([]byte("X"))
+		fmt.Println("write", err)
+		fmt.Println("close", h.Close())
+		show("afterclose")
+		fmt.Println("mkdir", fs.Mkdir("/n", 0o755))
+		show("aftermkdir")
+	case "recreate":
+		wf("/f", "abc")
+		h, err = fs.OpenFile("/f", os.O_RDWR|os.O_APPEND, 0)
+		fmt.Println("rename", fs.Rename("/f", "/g"))
+		wf("/f", "new")
+		_, err = h.Write([]byte("X"))
+		fmt.Println("write", err)
+		fmt.Println("close", h.Close())
+		show("afterclose")
+	case "sync":
+		wf("/f", "abc")
+		h, err = fs.OpenFile("/f", os.O_RDWR|os.O_APPEND, 0)
+		_, err = h.Write([]byte("X"))
+		fmt.Println("write", err, "sync", h.Sync())
+		show("aftersync")
+		_, err = h.Write([]byte("Y"))
+		fmt.Println("write", err, "close", h.Close())
+		show("afterclose")
 	}
 }
